@@ -161,8 +161,8 @@ impl Monitor for C14 {
     }
     fn gens(&self, tier: Tier) -> Vec<(&'static str, u64)> {
         match tier {
-            Tier::Quick => vec![("grid4", 64 * 3), ("random", 150)],
-            Tier::Thorough => vec![("grid6", 216 * 3), ("random", 3000)],
+            Tier::Quick => vec![("grid6", 216 * 3), ("random", 1500)],
+            Tier::Thorough => vec![("grid6", 216 * 3), ("grid8", 512 * 3), ("random", 30_000)],
         }
     }
     fn rule(&self) -> &'static str {
@@ -182,6 +182,10 @@ impl Monitor for C14 {
                 let s = (idx / 3) as usize;
                 (1 + s / 36, 1 + (s / 6) % 6, 1 + s % 6, (idx % 3) as usize, 6)
             }
+            "grid8" => {
+                let s = (idx / 3) as usize;
+                (1 + s / 64, 1 + (s / 8) % 8, 1 + s % 8, (idx % 3) as usize, 8)
+            }
             _ => (rng.range(1, 12), rng.range(1, 12), rng.range(1, 12), rng.range(0, 2), 5),
         };
         let vals = contents(&mut rng, c * h * w, kind);
@@ -194,7 +198,7 @@ impl Monitor for C14 {
         out
     }
     fn finish(&self, tier: Tier, _seed: u64, agg: &mut Agg) {
-        let want = if tier == Tier::Thorough { 216 } else { 64 };
+        let want = if tier == Tier::Thorough { 512 } else { 216 };
         agg.extra.push(("exhaustive".into(), J::Bool(agg.set_size("source_shapes") >= want)));
         agg.require(agg.set_size("source_shapes") >= want, "grid not covered".into());
         agg.require(agg.count("unequal_count_reshapes_that_must_be_refused") > 1000, "too few refusal cases".into());
